@@ -45,12 +45,13 @@ theorem C04_generated_sound_full_tree (t : Tree) (n : Node) (h : fromEtree schem
     ValidFull schema n :=
   C04_sound_full_tree schema schema_ok t n h
 
-/-- **C04 for the generated schema, keyword route** (guard: no keyword is the empty string) -/
-theorem C04_generated_sound_full_kw_partial (ci : Nat) (args : List Node) (kw : List (Str × Node)) (n : Node)
-    (h : construct schema Types.conv ci args kw = .ok n) (hne : NoEmptyStr kw)
+/-- **C04 for the generated schema, keyword route**: every instance `Cls(*args, **kwargs)` returns is valid, all the
+    way down, given that the instances handed in are (no guard on the arguments) -/
+theorem C04_generated_sound_full_kw (ci : Nat) (args : List Node) (kw : List (Str × Node)) (n : Node)
+    (h : construct schema Types.conv ci args kw = .ok n)
     (hargs : ∀ m ∈ args, m.isAgg = true → ValidFull schema m)
     (hkw : ∀ k v, (k, v) ∈ kw → v.isAgg = true → ValidFull schema v) : ValidFull schema n :=
-  C04_sound_full_kw_partial schema schema_ok ci args kw n h hne hargs hkw
+  C04_sound_full_kw schema schema_ok ci args kw n h hargs hkw
 
 /-- … and the groups declared in any base class hold of every valid instance -/
 theorem C04_generated_declared_groups (ci : Nat) (c : Cls) (fields : List (Str × Node)) (items : List Node)
